@@ -538,6 +538,58 @@ func genTwo(r *lib.Rng, n int) {
 	}
 }
 
+// runRecycle: a pooled BufferReader is used once (ReadString on b1), recycled, and a BufferReader obtained again
+// (sync.Pool hands the same object back) reads a message header and a string from b2. The second use must behave
+// like a fresh reader — exact values and exact Readn — and the string handed out by the first use must not change.
+func runRecycle(b1, b2 []byte, src2 string) string {
+	return lib.Guard(func() string {
+		r := thrift.NewBufferReader(bufiox.NewBytesReader(append([]byte(nil), b1...)))
+		s1, err := r.ReadString()
+		if err != nil {
+			return "err1 " + wireErrStr(err)
+		}
+		h1 := lib.Hex([]byte(s1)) // a copy of what was returned, taken now
+		r.Recycle()
+		rd2 := mkReader(b2, src2)
+		r2 := thrift.NewBufferReader(rd2)
+		name, typ, seq, err := r2.ReadMessageBegin()
+		if err != nil {
+			return "err2 " + wireErrStr(err)
+		}
+		n1 := r2.Readn()
+		s2, err := r2.ReadString()
+		if err != nil {
+			return "err3 " + wireErrStr(err)
+		}
+		h2 := lib.Hex([]byte(s2))
+		res := fmt.Sprintf("ok %s %s %d %d %d %s %d %s", h1, lib.Hex([]byte(name)), typ, seq, n1, h2, r2.Readn(), lib.Hex([]byte(s1)))
+		r2.Recycle()
+		return res
+	})
+}
+
+func opRecycle(b1, b2 []byte, src2 string) {
+	if declared("string", b1) > allocCap || len(b2) > 1<<16 {
+		return
+	}
+	res := runRecycle(b1, b2, src2)
+	em.Count("r-recycle:" + firstTok(res))
+	em.Line(res, "wire", "r-recycle", lib.Hex(b1), lib.Hex(b2), src2)
+}
+
+func genRecycle(r *lib.Rng, n int) {
+	for i := 0; i < n; i++ {
+		s1 := content(r, r.Pick(1, 5, 16, 40, 200, r.Intn(300)+1))
+		b1 := append(refEnc(Val{K: "string", S: s1}), r.Bytes(r.Pick(0, 3))...)
+		name := content(r, r.Pick(1, 4, 7, 16, len(s1)))
+		s2 := content(r, r.Pick(1, 5, len(s1), 40, 250))
+		b2 := append(refEnc(Val{K: "msg", S: name, MsgTyp: int32(r.Pick(1, 2, 3, 4)), I: int64(int32(r.U64()))}), refEnc(Val{K: "string", S: s2})...)
+		b2 = append(b2, r.Bytes(r.Pick(0, 2))...)
+		opRecycle(b1, b2, fmt.Sprintf("b%d", len(b2)+r.Pick(0, 5)))
+		opRecycle(b1, b2, scriptFor(r, len(b2), true).String())
+	}
+}
+
 func opSeq(setup string, vs []Val) {
 	f := []string{"wire", "w-seq", setup}
 	for i, v := range vs {
@@ -1387,6 +1439,16 @@ func genC01(o *lib.Opts, r *lib.Rng) {
 			opReadStream(k, b, lib.GenScript(r, len(b)).String())
 		}
 	}
+	// 6b. declared lengths within 16 of MaxInt32 (an int32 sum `4+sz` / `12+sz` wraps there), every tail length
+	for _, sz := range []uint32{0x7fffffef, 0x7ffffff3, 0x7ffffff4, 0x7ffffff7, 0x7ffffff8, 0x7ffffffb, 0x7ffffffc, 0x7ffffffe} {
+		for _, tail := range []int{0, 3, 4, 8, 12, 16} {
+			b := append(binary.BigEndian.AppendUint32(nil, sz), r.Bytes(tail)...)
+			em.Count("hostile-len-near-maxint32")
+			for _, k := range []string{"string", "binary"} {
+				opReadBuf(k, b)
+			}
+		}
+	}
 	// 7. bounded-exhaustive short inputs over a boundary alphabet, every reader
 	alpha := []byte{0x00, 0x01, 0x02, 0x0b, 0x7f, 0x80, 0xff}
 	maxLen := 3
@@ -1495,6 +1557,7 @@ func genC12(o *lib.Opts, r *lib.Rng) {
 		bundle(r, "msg-random", Val{K: "msg", S: nm, MsgTyp: int32(r.U64()), I: int64(int32(r.U64()))}, lite)
 	}
 	genSeqs(r, n/8+10, true)
+	genRecycle(r, n/10+40)
 	// 2. every first-word class on both readers, with a well-formed rest and with nothing after it
 	for _, w := range firstWords() {
 		rest := refEnc(Val{K: "msg", S: []byte("vv"), MsgTyp: 0, I: 9})[4:]
@@ -1527,6 +1590,16 @@ func genC12(o *lib.Opts, r *lib.Rng) {
 		opReadStream("msg", b, "b"+strconv.Itoa(len(b)))
 		opReadStream("msg", b, lib.GenScript(r, len(b)).String())
 		em.Line(runUnmarshal(b), "msg", "unmarshal", lib.Hex(b))
+	}
+	// name lengths within 16 of MaxInt32 (an int32 sum such as `12+sz` wraps there), every tail length
+	for _, sz := range []uint32{0x7fffffef, 0x7ffffff3, 0x7ffffff4, 0x7ffffff7, 0x7ffffff8, 0x7ffffffb, 0x7ffffffc, 0x7ffffffe, 0x7fffffff} {
+		for _, tail := range []int{0, 3, 4, 8, 12, 16} {
+			b := binary.BigEndian.AppendUint32([]byte{0x80, 0x01, 0, 1}, sz)
+			b = append(b, r.Bytes(tail)...)
+			em.Count("msg-name-len-near-maxint32")
+			opReadBuf("msg", b)
+			em.Line(runUnmarshal(b), "msg", "unmarshal", lib.Hex(b))
+		}
 	}
 	// bounded-exhaustive short inputs
 	alpha := []byte{0x00, 0x01, 0x03, 0x80, 0xff}
@@ -1631,6 +1704,8 @@ func replay(lines [][]string) {
 			}
 		case f[0] == "wire" && f[1] == "r-two" && len(f) == 4:
 			em.Line(runTwo(lib.UnHex(f[2]), f[3]), f...)
+		case f[0] == "wire" && f[1] == "r-recycle" && len(f) == 5:
+			em.Line(runRecycle(lib.UnHex(f[2]), lib.UnHex(f[3]), f[4]), f...)
 		case f[0] == "wire" && (f[1] == "w-seq" || f[1] == "w-multi"):
 			var vs []Val
 			ok := true
@@ -1687,6 +1762,15 @@ func main() {
 	}
 	if *only == "" || *only == "c12" {
 		genC12(o, lib.NewRng(o.Seed^0x5bd1e995))
+	}
+	if *only == "c16" { // the stream reader's share of C16: values handed out stay what they were
+		rr := lib.NewRng(o.Seed ^ 0x2545f491)
+		k := 400
+		if o.Tier == "thorough" {
+			k = 4000
+		}
+		genTwo(rr, k)
+		genRecycle(rr, k)
 	}
 	em.Close(o.Stats)
 }
